@@ -89,7 +89,7 @@ CHECKS['C18'] = dict(
     assumptions=['setting values are compared as unsigned 16-bit', 'name record 0 unretrievable fonts are skipped for labels (DESIGN 7.6)'],
 )
 
-from checks_py import stream_families
+from checks_py import stream_families, cached_binary
 HOOK_COMMITS.append('7573bac2')
 
 _PROG_RULE = ('fonts enumerated by gen/progenum.py and filtered by the REAL loader: (action) every action program of <=3 atoms (quick) / <=4 atoms + 5 structural atoms (thorough) over a 26-atom alphabet '
@@ -104,8 +104,9 @@ for _p, _what in (('C02', 'oracle: ASan/UBSan silence, rule-loop counter hook <=
                   ('C05', 'oracle: n_cinfo == nChars, characters and bases equal the reference decoding, slot before/after/original in range, every character covered, cinfo before/after in [0,n_slots)')):
     CHECKS[_p] = dict(
         level='exploration',
-        steps=[dict(name='program_enumeration', py=stream_families(['twopass', 'constraint', 'action'], _p), targets=[('asan', 'c02_stream')])],
-        rule=_PROG_RULE + _what + '. distinct = distinct structural segment dumps (slots, glyphs, attachments, associations) observed',
+        steps=[dict(name='program_enumeration', py=stream_families(['twopass', 'constraint', 'action'], _p), targets=[('asan', 'c02_stream')]),
+               dict(name='accepted_load_mutants', py=cached_binary('c01_load', _p, 'C01'), targets=[('asan', 'c01_load')])],
+        rule=_PROG_RULE + 'Additionally every C01 load mutant (single byte / field / field pair / truncation deviations of the seed fonts) that the loader accepts is shaped with 4 texts x dir {0,1,3}. ' + _what + '. distinct = distinct structural segment dumps (slots, glyphs, attachments, associations) observed',
         level_text='Bounded exhaustive enumeration of rule programs (the font is the program) crossed with all short texts and direction flags, each executed on the real engine under sanitizers with the structural oracle evaluated on every resulting segment.',
         level_note='Trusted: ASan/UBSan, the structural oracle (src/common/segcheck.hpp), the reference UTF decoder. Program length, alphabet and text length are bounded; collision passes are not part of the program space. The four properties C02-C05 share one cached run per tree.',
         technique='exhaustive bounded program enumeration (fonts as programs) x all short inputs on the real code, invariant oracle on every final state',
@@ -193,4 +194,19 @@ CHECKS['C14'] = dict(
     level_note='Trusted: reference decoder and enumerating encoder (gen/lz4enum.py), guard pages. Lengths, offsets and decision deviations are bounded sets.',
     technique='exhaustive bounded input enumeration on the real code vs reference decoder; enumerated valid encodings with differential oracle',
     assumptions=['success of lz4::decompress is judged as Face::Table does: returned size == announced size'],
+)
+
+
+CHECKS['C01'] = dict(
+    level='fault_enumeration',
+    steps=[dict(name='load_mutants', py=cached_binary('c01_load', 'C01', 'C01'), targets=[('asan', 'c01_load')])],
+    rule='deviation-bounded enumeration around well-formed seeds (small.ttf, S-min; S-full, S-full compressed, S-full v3/v4, Feat-v1 font, Padauk; thorough + Scheherazade, Awami plain/compressed, charis): '
+         '(bytes) EVERY byte of every table of the small seeds x all 255 other values x faceOptions {0,7}; (fields) every structural field of the generator field map (counts, offsets, lengths, indices, opcodes; first 48 header bytes of each table for shipped fonts) x a boundary value set '
+         '{0,1,orig+-1,+-2,half,double,7F,80,FF,100,7FFF,8000,FFFF,max-1,max,mid,table length+-1,remaining length+-1}; (pairs) all pairs of fields of one table x 6x6 values (small seeds; thorough S-full); (truncation) every prefix length of every table, table absent, 1/8/64 trailing garbage bytes; '
+         '(container) every byte of the sfnt header and table directory x all values through gr_make_file_face. Oracle: ASan/UBSan silence, per-mutant watchdog, NULL or a face on which the complete face dump (all gr_face_*/gr_fref_*/gr_featureval_* queries, labels in 3 encodings, is_char_supported probes) and gr_face_destroy complete, '
+         'allocation balance zero, table borrows all returned (also on the NULL path). distinct = distinct face dumps of accepted mutants',
+    level_text='Exhaustive single-deviation (and bounded double-deviation) fault enumeration of the table bytes and structural fields around well-formed fonts, each mutant loaded by the real library under sanitizers with a memory-face environment model.',
+    level_note='Trusted: ASan/UBSan, allocator statistics, memory face bookkeeping. Corruptions needing more than two coordinated fields are not reached; large shipped fonts are mutated in their header bytes only.',
+    technique='exhaustive deviation-bounded fault enumeration (dev-1 bytes/fields, dev-2 field pairs, truncations) on the real code',
+    assumptions=[],
 )
